@@ -1,1 +1,214 @@
 //! verif-hooks: elem area (read-only accessors; see mod.rs)
+//!
+//! Runs the elementary-function layer (`BigRat`/`Real` in `core/src/num`) on
+//! raw sign/numerator/denominator triples. Values go in and out through the
+//! existing (de)serialisation code, so no private field is touched.
+use crate::interrupt::Never;
+use crate::num::verif_access::{BigRat, Exact, Real};
+
+/// sign, numerator limbs, denominator limbs (little-endian base 2^64)
+#[derive(Clone, Debug)]
+pub struct RawRat {
+	pub neg: bool,
+	pub num: Vec<u64>,
+	pub den: Vec<u64>,
+}
+
+/// `Pattern::Simple` (pi = false) or `Pattern::Pi` (pi = true)
+#[derive(Clone, Debug)]
+pub struct RawReal {
+	pub pi: bool,
+	pub rat: RawRat,
+}
+
+fn put_uint(out: &mut Vec<u8>, limbs: &[u64]) {
+	if limbs.len() <= 1 {
+		out.push(1);
+		out.extend_from_slice(&limbs.first().copied().unwrap_or(0).to_be_bytes());
+	} else {
+		out.push(2);
+		out.extend_from_slice(&(limbs.len() as u64).to_be_bytes());
+		for l in limbs {
+			out.extend_from_slice(&l.to_be_bytes());
+		}
+	}
+}
+
+fn put_rat(out: &mut Vec<u8>, r: &RawRat) {
+	out.push(if r.neg { 1 } else { 2 });
+	put_uint(out, &r.num);
+	put_uint(out, &r.den);
+}
+
+fn take<'a>(b: &mut &'a [u8], n: usize) -> Option<&'a [u8]> {
+	if b.len() < n {
+		return None;
+	}
+	let (h, t) = b.split_at(n);
+	*b = t;
+	Some(h)
+}
+
+fn get_u64(b: &mut &[u8]) -> Option<u64> {
+	Some(u64::from_be_bytes(take(b, 8)?.try_into().ok()?))
+}
+
+fn get_uint(b: &mut &[u8]) -> Option<Vec<u64>> {
+	match take(b, 1)?[0] {
+		1 => Some(vec![get_u64(b)?]),
+		2 => {
+			let n = get_u64(b)?;
+			let mut v = vec![];
+			for _ in 0..n {
+				v.push(get_u64(b)?);
+			}
+			Some(v)
+		}
+		_ => None,
+	}
+}
+
+fn get_rat(b: &mut &[u8]) -> Option<RawRat> {
+	let neg = match take(b, 1)?[0] {
+		1 => true,
+		2 => false,
+		_ => return None,
+	};
+	Some(RawRat {
+		neg,
+		num: get_uint(b)?,
+		den: get_uint(b)?,
+	})
+}
+
+fn err_name<E: std::fmt::Debug>(e: E) -> String {
+	let s = format!("{e:?}");
+	s.chars()
+		.take_while(|c| c.is_ascii_alphanumeric() || *c == '_')
+		.collect()
+}
+
+fn to_bigrat(r: &RawRat) -> Result<BigRat, String> {
+	let mut bytes = vec![];
+	put_rat(&mut bytes, r);
+	BigRat::deserialize(&mut bytes.as_slice()).map_err(err_name)
+}
+
+fn from_bigrat(r: &BigRat) -> Result<RawRat, String> {
+	let mut bytes = vec![];
+	r.serialize(&mut bytes).map_err(err_name)?;
+	get_rat(&mut bytes.as_slice()).ok_or_else(|| "BadBytes".to_string())
+}
+
+fn to_real(r: &RawReal) -> Result<Real, String> {
+	let mut bytes = vec![if r.pi { 2 } else { 1 }];
+	put_rat(&mut bytes, &r.rat);
+	Real::deserialize(&mut bytes.as_slice()).map_err(err_name)
+}
+
+fn from_real(r: &Real) -> Result<RawReal, String> {
+	let mut bytes = vec![];
+	r.serialize(&mut bytes).map_err(err_name)?;
+	let mut b = bytes.as_slice();
+	let pi = match take(&mut b, 1).ok_or("BadBytes")?[0] {
+		1 => false,
+		2 => true,
+		_ => return Err("BadBytes".to_string()),
+	};
+	Ok(RawReal {
+		pi,
+		rat: get_rat(&mut b).ok_or_else(|| "BadBytes".to_string())?,
+	})
+}
+
+/// `BigRat::into_f64`, result as a bit pattern
+pub fn rat_into_f64(r: &RawRat) -> Result<u64, String> {
+	Ok(to_bigrat(r)?.into_f64(&Never).map_err(err_name)?.to_bits())
+}
+
+/// `BigRat::from_f64` on a bit pattern
+pub fn rat_from_f64(bits: u64) -> Result<RawRat, String> {
+	from_bigrat(&BigRat::from_f64(f64::from_bits(bits), &Never).map_err(err_name)?)
+}
+
+fn rat_out(r: Exact<BigRat>) -> Result<(bool, RawRat), String> {
+	Ok((r.exact, from_bigrat(&r.value)?))
+}
+
+/// the `BigRat` elementary functions; the flag is the `Exact` flag where the
+/// function returns one and `false` otherwise (their callers set it to false)
+pub fn rat_fn(name: &str, r: &RawRat) -> Result<(bool, RawRat), String> {
+	let x = to_bigrat(r)?;
+	let int = &Never;
+	let plain = |v: crate::result::FResult<BigRat>| -> Result<(bool, RawRat), String> {
+		Ok((false, from_bigrat(&v.map_err(err_name)?)?))
+	};
+	match name {
+		"sin" => rat_out(x.sin(int).map_err(err_name)?),
+		"ln" => rat_out(x.ln(int).map_err(err_name)?),
+		"exp" => rat_out(x.exp(int).map_err(err_name)?),
+		"asin" => plain(x.asin(int)),
+		"acos" => plain(x.acos(int)),
+		"atan" => plain(x.atan(int)),
+		"sinh" => plain(x.sinh(int)),
+		"cosh" => plain(x.cosh(int)),
+		"tanh" => plain(x.tanh(int)),
+		"asinh" => plain(x.asinh(int)),
+		"acosh" => plain(x.acosh(int)),
+		"atanh" => plain(x.atanh(int)),
+		"log2" => plain(x.log2(int)),
+		"log10" => plain(x.log10(int)),
+		_ => Err("UnknownFunction".to_string()),
+	}
+}
+
+/// `BigRat::pow`
+pub fn rat_pow(a: &RawRat, b: &RawRat) -> Result<(bool, RawRat), String> {
+	rat_out(to_bigrat(a)?.pow(to_bigrat(b)?, &Never).map_err(err_name)?)
+}
+
+fn real_out(r: Exact<Real>) -> Result<(bool, RawReal), String> {
+	Ok((r.exact, from_real(&r.value)?))
+}
+
+/// the `Real` elementary functions (flag as for `rat_fn`)
+pub fn real_fn(name: &str, r: &RawReal) -> Result<(bool, RawReal), String> {
+	let x = to_real(r)?;
+	let int = &Never;
+	let plain = |v: crate::result::FResult<Real>| -> Result<(bool, RawReal), String> {
+		Ok((false, from_real(&v.map_err(err_name)?)?))
+	};
+	match name {
+		"sin" => real_out(x.sin(int).map_err(err_name)?),
+		"cos" => real_out(x.cos(int).map_err(err_name)?),
+		"ln" => real_out(x.ln(int).map_err(err_name)?),
+		"exp" => real_out(x.exp(int).map_err(err_name)?),
+		"asin" => plain(x.asin(int)),
+		"acos" => plain(x.acos(int)),
+		"atan" => plain(x.atan(int)),
+		"sinh" => plain(x.sinh(int)),
+		"cosh" => plain(x.cosh(int)),
+		"tanh" => plain(x.tanh(int)),
+		"asinh" => plain(x.asinh(int)),
+		"acosh" => plain(x.acosh(int)),
+		"atanh" => plain(x.atanh(int)),
+		"log2" => plain(x.log2(int)),
+		"log10" => plain(x.log10(int)),
+		_ => Err("UnknownFunction".to_string()),
+	}
+}
+
+/// `Real::pow`
+pub fn real_pow(a: &RawReal, b: &RawReal) -> Result<(bool, RawReal), String> {
+	real_out(to_real(a)?.pow(to_real(b)?, &Never).map_err(err_name)?)
+}
+
+/// the rational `Real::approximate` substitutes for pi, observed as
+/// (inexact 0) + pi through `Exact<Real>::add` (the mixed-pattern branch
+/// approximates both operands and adds them)
+pub fn pi_approx() -> Result<RawRat, String> {
+	let zero = Exact::new(Real::from(0), false);
+	let pi = Exact::new(Real::pi(), true);
+	let sum = zero.add(pi, &Never).map_err(err_name)?;
+	Ok(from_real(&sum.value)?.rat)
+}
